@@ -139,14 +139,18 @@ class ScatLayerj2(nn.Module):
         if rem != 0:
             rows_after = (9-rem)//2
             rows_before = (8-rem) // 2
-            x = torch.cat((x[:,:,:rows_before], x,
-                           x[:,:,-rows_after:]), dim=2)
+            # Index modulo the size so that inputs with fewer rows than are
+            # needed for the extension (2 rows) wrap around
+            before = torch.arange(rows_before, device=x.device) % r
+            after = torch.arange(r-rows_after, r, device=x.device) % r
+            x = torch.cat((x[:,:,before], x, x[:,:,after]), dim=2)
         rem = c % 8
         if rem != 0:
             cols_after = (9-rem)//2
             cols_before = (8-rem) // 2
-            x = torch.cat((x[:,:,:,:cols_before], x,
-                           x[:,:,:,-cols_after:]), dim=3)
+            before = torch.arange(cols_before, device=x.device) % c
+            after = torch.arange(c-cols_after, c, device=x.device) % c
+            x = torch.cat((x[:,:,:,before], x, x[:,:,:,after]), dim=3)
 
         if self.combine_colour:
             assert ch == 3
